@@ -15,8 +15,9 @@ from pqv.pathrng import exact_law, PathRng
 from pqv.props.c05 import reference_table, halmos, gram
 from pqv.props.c07 import haar
 
-THEOREMS = ["Pq.C02.pick_law", "Pq.C02.chain_sampler_law", "Pq.C02.chain_total", "Pq.C02.early_abort_sound", "Pq.C02.early_abort_never_bad"]
-FILES = ["PqVerif/Model/Sampler.lean", "PqVerif/Props/C02.lean"]
+THEOREMS = ["Pq.C02.pick_law", "Pq.C02.chain_sampler_law", "Pq.C02.chain_total", "Pq.C02.early_abort_sound", "Pq.C02.early_abort_never_bad",
+            "Pq.C02.cc_pmf_numerator", "Pq.C02.cc_pmf_normalisation"]
+FILES = ["PqVerif/Model/Sampler.lean", "PqVerif/Lemmas/PermSpec.lean", "PqVerif/Lemmas/FockRepLaws.lean", "PqVerif/Lemmas/CliffordClifford.lean", "PqVerif/Props/C02.lean"]
 
 
 def born_table(T, occ, G=None):
@@ -327,6 +328,37 @@ def shapes_and_discrete(ctx, n_cases):
     return fails
 
 
+def pmf_correspondence(ctx, n):
+    """tie of Lemmas/CliffordClifford.lean to `_calculate_pmf`: the real conditional pmf of the chain-rule sampler equals
+    |perm(U; r + e_i, v)|^2 / sum_c v_c^2 |perm(U; r, v - e_c)|^2 (permanents with multiplicities by the definition oracle),
+    for random isometries, bunched partial samples r and bunched column multiplicities v"""
+    from piquasso._simulators.passive import sampling
+    from piquasso._math.permanent import permanent_laplace
+    from pqv.props.c04 import perm_def
+    rng = np.random.default_rng(ctx.seed + 222)
+    mism = []
+    for it in range(n):
+        d = int(rng.integers(2, 5)); k = int(rng.integers(1, 5))
+        U = haar(rng, d)
+        v = np.zeros(d, dtype=int)
+        for _ in range(k):
+            v[int(rng.integers(0, d))] += 1
+        r = np.zeros(d, dtype=int)
+        for _ in range(k - 1):
+            r[int(rng.integers(0, d))] += 1
+        pmf = np.asarray(sampling._calculate_pmf(v.copy(), r.copy(), permanent_laplace, U))
+        e = np.eye(d, dtype=int)
+        num = np.array([abs(perm_def(U, r + e[i], v)) ** 2 for i in range(d)])
+        den = sum(v[c] ** 2 * abs(perm_def(U, r, v - e[c])) ** 2 for c in range(d) if v[c] > 0)
+        ctx.count(("pmf", it), nontrivial=k >= 2 and (v.max() >= 2 or r.max() >= 2))
+        if den <= 1e-14:
+            continue
+        err = float(np.abs(pmf - num / den).max())
+        if err > 1e-9:
+            mism.append((f"pmf d={d} v={v.tolist()} r={r.tolist()}", f"_calculate_pmf differs from |perm(U; r+e_i, v)|^2 / sum_c v_c^2 |perm(U; r, v-e_c)|^2 by {err:.2e}"))
+    return mism
+
+
 def run(ctx):
     quick = ctx.tier == "quick"
     n_s, n_c, n_d = (60, 30, 4) if quick else (1200, 400, 40)
@@ -344,8 +376,12 @@ def run(ctx):
         if p.returncode != 0:
             ctx.fail("repro:" + os.path.basename(f), "pinned regression fails: " + p.stdout[-300:], {"script": f})
     mism = chain_model_correspondence(ctx, 12 if quick else 200)
+    m_pmf = pmf_correspondence(ctx, 40 if quick else 600)
+    if m_pmf:
+        ctx.broken.append("correspondence:Lemmas/CliffordClifford (conditional pmf) vs _calculate_pmf")
+        ctx.notes.setdefault("first_mismatches", []).extend(dict(op=m[0], real=m[1], model="") for m in m_pmf[:3])
     fails = passive_samplers(ctx, n_s) + continuous(ctx, n_c) + shapes_and_discrete(ctx, n_d)
-    ctx.notes["correspondence_mismatches"] = len(mism)
+    ctx.notes["correspondence_mismatches"] = len(mism) + len(m_pmf)
     seen = set()
     for key, msg, inp in fails:
         if key not in seen:
